@@ -35,8 +35,8 @@ theorem routing_exact (cfg : Cfg) (fuel : Nat) (s : State) (f : Frame) (k : Nat)
       dataSends (isCopy k) s.out ++
         (if outOfRange cfg f then []
          else ((recipients cfg s f.mtype).filter (elig f s)).map (fun u => (u, f))) := by
-  have hB := tag_data k
-  have ih := forward_ok hB cfg fuel
+  have hB := tag_data cfg k
+  have ih := forward_ok cfg hB fuel
   have hBf : isCopy k f.body = true := by simp [isCopy, hb]
   unfold forward
   simp only [hc, Option.isSome_none, Bool.false_eq_true, if_false]
@@ -46,7 +46,7 @@ theorem routing_exact (cfg : Cfg) (fuel : Nat) (s : State) (f : Frame) (k : Nat)
   · have hr : outOfRange cfg f = true := by unfold outOfRange; rw [h1]; rfl
     rw [hr]
     simp only [h1, if_true]
-    have := logAt_ok hB cfg ih 40 (countMsg cfg s f.mtype)
+    have := logAt_ok cfg hB ih 40 (countMsg cfg s f.mtype)
     rw [this.2, qc]; simp
   · have h1' : (f.dest < 0 || f.dest > cfg.maxModules) = false := by simpa using h1
     simp only [h1', Bool.false_eq_true, if_false]
@@ -54,13 +54,13 @@ theorem routing_exact (cfg : Cfg) (fuel : Nat) (s : State) (f : Frame) (k : Nat)
     · have hr : outOfRange cfg f = true := by unfold outOfRange; rw [h1', h2]; rfl
       rw [hr]
       simp only [h2, if_true]
-      have := logAt_ok hB cfg ih 40 (countMsg cfg s f.mtype)
+      have := logAt_ok cfg hB ih 40 (countMsg cfg s f.mtype)
       rw [this.2, qc]; simp
     · have h2' : (f.destHost < 0 || f.destHost > cfg.maxHosts) = false := by simpa using h2
       have hr : outOfRange cfg f = false := by unfold outOfRange; rw [h1', h2']; rfl
       rw [hr]
       simp only [h2', Bool.false_eq_true, if_false]
-      have := deliver_ok hB cfg ih f (recipients cfg (countMsg cfg s f.mtype) f.mtype) (countMsg cfg s f.mtype)
+      have := deliver_ok cfg hB ih f (recipients cfg (countMsg cfg s f.mtype) f.mtype) (countMsg cfg s f.mtype)
       rw [this.2, qc, recipients_count]
       have he : (recipients cfg s f.mtype).filter (elig f (countMsg cfg s f.mtype)) =
                 (recipients cfg s f.mtype).filter (elig f s) := by
@@ -74,14 +74,14 @@ other input frame `k'`. -/
 theorem other_frames_untouched (cfg : Cfg) (fuel : Nat) (s : State) (f : Frame) (k k' : Nat)
     (hb : f.body = .data k) (hne : k' ≠ k) :
     dataSends (isCopy k') (forward cfg fuel s f).out = dataSends (isCopy k') s.out :=
-  (forward_ok (tag_data k') cfg fuel s f (by simp [isCopy, hb]; omega)).2
+  (forward_ok cfg (tag_data cfg k') fuel s f (by simp [isCopy, hb]; omega)).2
 
 /-- **Manager-originated forwards never carry client data**: forwarding any frame that is not a copy of an input frame
 (CLIENT_INFO, CLIENT_CLOSED, FAILED_MESSAGE, TIMING, TRAFFIC, ACTIVE_CLIENTS, RTMA_LOG …) writes no data copy at all. -/
 theorem manager_frames_carry_no_data (cfg : Cfg) (fuel : Nat) (s : State) (g : Frame) (k : Nat)
     (hg : ∀ j, g.body ≠ .data j) :
     dataSends (isCopy k) (forward cfg fuel s g).out = dataSends (isCopy k) s.out :=
-  (forward_ok (tag_data k) cfg fuel s g (by simp [isCopy]; exact hg k)).2
+  (forward_ok cfg (tag_data cfg k) fuel s g (by simp [isCopy]; exact hg k)).2
 
 /-- **Out-of-range destinations are delivered to nobody.** -/
 theorem out_of_range_dropped (cfg : Cfg) (fuel : Nat) (s : State) (f : Frame) (k : Nat)
